@@ -170,7 +170,7 @@ func verifPBLInvariant(bl *PersistentBlockList, what string) {
 
 func verifPBLBounds() (int, int, int) {
 	if vnd.Thorough() {
-		return 3, 2, 1 // (3, 2, 2) takes more than half an hour per property
+		return 2, 2, 2 // three blocks take more than half an hour per property
 	}
 	return 2, 2, 1
 }
